@@ -33,7 +33,7 @@ from bubus import BaseEvent, EventBus
 
 from bvt.vloop import Hang, VLoop
 
-POLL_SILENCE = 0.35
+POLL_SILENCE = 0.375
 
 
 # ---------------------------------------------------------------------------
@@ -800,7 +800,7 @@ def run_scenario(sc: dict, *, keep_world: bool = False, spin_budget: int = 60_00
         # harness-owned quiescence / hang detection (progress based)
         silent = 0.0
         last = len(w.trace)
-        step = 0.175
+        step = 0.1875
         while True:
             await asyncio.sleep(step)
             n = len(w.trace)
